@@ -143,7 +143,11 @@ theorem inter_rot (hwf : p.WF) (hwf' : (p.withTerms ts).WF) (W : MatK K p.blocks
     intro X idx _
     have helim : ∀ c d, (p.withTerms ts).elim c d = p.elim c d := by
       intro c d
-      simp only [elim, equalEigs, hen]
+      have hclose : (p.withTerms ts).closeIn = p.closeIn := by
+        funext x y
+        simp only [closeIn, equalEigs, hen]
+        rfl
+      simp only [elim, sameLevel, hclose]
       rfl
     show (if p.selected idx.i then (p.withTerms ts).hadamard (fun a b => !(p.withTerms ts).elim a b) (p.rotM ts W X)
         else p.rotM ts W X)
@@ -163,7 +167,11 @@ theorem inter_rot (hwf : p.WF) (hwf' : (p.withTerms ts).WF) (W : MatK K p.blocks
     intro X idx _
     have helim : ∀ c d, (p.withTerms ts).elim c d = p.elim c d := by
       intro c d
-      simp only [elim, equalEigs, hen]
+      have hclose : (p.withTerms ts).closeIn = p.closeIn := by
+        funext x y
+        simp only [closeIn, equalEigs, hen]
+        rfl
+      simp only [elim, sameLevel, hclose]
       rfl
     show (if p.selected idx.i then (p.withTerms ts).hadamard (fun a b => (p.withTerms ts).elim a b) (p.rotM ts W X)
         else 0)
